@@ -22,6 +22,7 @@ theorem generated_racy_sites_known : racySites.all (["Components.MapToTags.Run"]
 
 
 
+
 -- BEGIN PINS (written by bin/mkpins; do not edit by hand)
 /-- the Go functions this property's model and obligations were written against have exactly the
 pinned skeletons (SHA-256 prefix of the atom list) -/
@@ -39,7 +40,7 @@ theorem pinned_skeletons_c12 :
      ("Components.StreamToSubStream_Run", "3877054697bb0416"),
      ("Scipipe.#decls", "08e57e98702ecd70"),
      ("Scipipe.NewTask", "95298f03c320cb96"),
-     ("Scipipe.Process_Run", "05880ea16e590fb1"),
+     ("Scipipe.Process_Run", "40f832903317f455"),
      ("Scipipe.Process_createTasks", "8c856d9ef4492f5d"),
      ("Scipipe.Sink_Run", "2d6c7d95ef617224"),
      ("Scipipe.newWorkflowWithoutLogging", "6bb5eb2ae17350a8"),
